@@ -28,15 +28,9 @@ IsNewline(e) == e.k = "t" /\ e.arg = Tr.nl \o Tr.base
 \* Lines of the final result as the library itself splits lines (split_lines(): CR LF, CR or LF).  For the usual newline strings
 \* this is the number of newline strings; it differs exactly when a line break reached the result without going through the
 \* newline push (which is what keeps line and column exact).
-RECURSIVE CountBr(_, _), LastBrEnd(_, _)
-CountBr(str, i) == IF i > Len(str) THEN 0
-                   ELSE IF At(str, i) = "\r" /\ At(str, i + 1) = "\n" THEN 1 + CountBr(str, i + 2)
-                   ELSE IF At(str, i) \in {"\r", "\n"} THEN 1 + CountBr(str, i + 1)
-                   ELSE CountBr(str, i + 1)
-LastBrEnd(str, i) == IF i < 1 THEN 0 ELSE IF At(str, i) \in {"\r", "\n"} THEN i ELSE LastBrEnd(str, i - 1)
 Usual == Tr.nl \in {"\n", "\r\n", "\r"}
-LineOfResult(off) == IF Usual THEN CountBr(SubSeq(Final, 1, off), 1) ELSE OS!LineOf(Final, Tr.nl, off)
-ColumnOfResult(off) == IF Usual THEN off - LastBrEnd(Final, off) ELSE OS!ColumnOf(Final, Tr.nl, off)
+LineOfResult(off) == OS!LineOf(Final, Tr.nl, off)
+ColumnOfResult(off) == OS!ColumnOf(Final, Tr.nl, off)
 
 Judge(e) == IF e.off # st.offset THEN "offset"
             ELSE IF e.line # st.line THEN "line"
